@@ -52,6 +52,11 @@ Outer(h) == {
   For(<<It("i", h), It("j", XS)>>, Lst(<<Iv, Jv>>)), For(<<Ir("i", One, h)>>, Iv), For(<<Ir("i", One, Two), It("j", h)>>, Lst(<<Iv, Jv>>)),
   Some(<<It("i", h)>>, Bin("eq", Iv, X)), Some(<<It("i", XS)>>, h), Some(<<It("i", XS), It("j", h)>>, Bin("eq", Iv, Jv)),
   Every(<<It("i", h)>>, Bin("eq", Iv, X)), Every(<<It("i", XS)>>, h), Every(<<It("i", XS), It("j", h)>>, Bin("eq", Iv, Jv)),
+  \* a free name read after a construct that binds the same name locally (the local binding must be gone)
+  Lst(<<Some(<<It("x", h)>>, Bin("gt", X, One)), X>>), Lst(<<Every(<<It("x", h)>>, Bin("gt", X, One)), X>>),
+  Lst(<<For(<<It("x", h)>>, X), X>>), Lst(<<Cx(<<En("x", h)>>), X>>), Lst(<<Path(Cx(<<En("x", h)>>), "x"), X, Y>>),
+  \* equality of composite values whose members are null for different reasons
+  Bin("eq", Cx(<<En("a", h), En("b", One)>>), Cx(<<En("a", Nu), En("b", One)>>)), Bin("eq", Lst(<<h, One>>), Lst(<<Nu, One>>)),
   Call(Fn(<<"u">>, Lst(<<U, h>>)), <<X>>),
   Path(Cx(<<En("f", Fn(<<"u">>, Bin("add", U, One))), En("r", Call(Nm("f"), <<h>>))>>), "r"),
   Path(Cx(<<En("f", Fn(<<"u", "w">>, Lst(<<U, Wv>>))), En("r", CallN(Nm("f"), <<[p |-> "w", v |-> h], [p |-> "u", v |-> X]>>))>>), "r"),
